@@ -86,7 +86,8 @@ impl<'tcx> Cx<'tcx> {
             }
         }
         if let ty::Ref(_, inner, _) = ty.kind() {
-            if inner.is_integral() || inner.is_bool() {
+            let is_c_like_enum = matches!(inner.kind(), ty::Adt(d, _) if d.is_enum() && d.variants().iter().all(|v| v.fields.is_empty()));
+            if inner.is_integral() || inner.is_bool() || is_c_like_enum {
                 if let Ok(v) = c.const_.eval(self.tcx, env, c.span) {
                     if let mir::ConstValue::Scalar(rustc_middle::mir::interpret::Scalar::Ptr(ptr, _)) = v {
                         let (prov, off) = ptr.into_raw_parts();
@@ -101,6 +102,13 @@ impl<'tcx> Cx<'tcx> {
                                     for (i, b) in bytes.iter().enumerate() { raw |= (*b as u128) << (8 * i); }
                                     let val: i128 = if inner.is_signed() { rustc_abi::Size::from_bytes(size as u64).sign_extend(raw) as i128 } else { raw as i128 };
                                     let _ = write!(s, ",\"pv\":{}", val);
+                                    if let ty::Adt(d, _) = inner.kind() {
+                                        if d.is_enum() {
+                                            for (vi, discr) in d.discriminants(self.tcx) {
+                                                if discr.val == raw { let _ = write!(s, ",\"pvariant\":{}", js(&d.variant(vi).name.to_string())); }
+                                            }
+                                        }
+                                    }
                                 }
                             }
                         }
